@@ -4,6 +4,8 @@ import (
 	"bytes"
 	"math"
 
+	"github.com/go-json-experiment/json/jsontext"
+
 	"github.com/go-json-experiment/json/internal/zzverif/vrt"
 )
 
@@ -43,29 +45,34 @@ func VerifC18ErrAlias(nd int, viaReader bool) {
 	vrt.Assert("C18/alias/error-value-not-altered-later", bytes.Equal(se.JSONValue, snapshot))
 }
 
-// VerifC18DeepHistory: a Marshal that fails deep inside cycle-tracked data (more than 1000
-// levels) leaves nothing behind: marshaling the same containers again, now with a valid
-// innermost value, on the recycled encoder gives exactly what a fresh encoder gives.
+// VerifC18DeepHistory: a marshal that fails deep inside cycle-tracked data (more than 1000
+// levels) leaves nothing behind on its Encoder: after Reset, marshaling the same containers
+// again (now with a valid innermost value) gives exactly what a new Encoder gives. (An explicit
+// Encoder is re-used so that the history is the same natively; the pooled encoders of Marshal
+// share the same reset code.)
 func VerifC18DeepHistory(depth int) {
 	inner := []any{math.NaN()}
 	var v any = inner
 	for i := 0; i < depth; i++ {
 		v = []any{v}
 	}
-	vrt.PoolPolicy(vrt.PoolEither)
-	_, err1 := Marshal(v)
+	w1 := new(bytes.Buffer)
+	enc := jsontext.NewEncoder(w1)
+	err1 := MarshalEncode(enc, v)
 	vrt.Assert("C18/deep/nan-rejected", err1 != nil)
 	leaf := any(nil)
 	if vrt.Bool("leafkind") {
 		leaf = true
 	}
 	inner[0] = leaf
-	out2, err2 := Marshal(v) // recycled encoder
-	vrt.PoolPolicy(vrt.PoolFresh)
-	out3, err3 := Marshal(v) // fresh encoder
+	w2 := new(bytes.Buffer)
+	enc.Reset(w2)
+	err2 := MarshalEncode(enc, v) // re-used encoder
+	w3 := new(bytes.Buffer)
+	err3 := MarshalEncode(jsontext.NewEncoder(w3), v) // new encoder
 	vrt.Cover("second")
 	vrt.Observe("err2nil", err2 == nil)
 	vrt.Assert("C18/deep/same-error-ness", (err2 == nil) == (err3 == nil))
 	vrt.Assert("C18/deep/second-call-succeeds", err2 == nil)
-	vrt.Assert("C18/deep/same-bytes", bytes.Equal(out2, out3))
+	vrt.Assert("C18/deep/same-bytes", bytes.Equal(w2.Bytes(), w3.Bytes()))
 }
